@@ -63,6 +63,9 @@ def run(ctx):
             else: ctx.notes.append('special-output scenario skipped: ' + str(res.get('skipped')))
             res = sysmon.st.run_option_order(sysmon.sysroot(ctx, 'c01'), 'c01o' + os.path.basename(cc), cc)
             sysmon.feed(ctx, res, findings, f'system option-order scenario {os.path.basename(cc)}')
+            if cc.endswith('gcc'):
+                res = sysmon.st.run_client_umask(sysmon.sysroot(ctx, 'c01'), 'c01u', cc)
+                sysmon.feed(ctx, res, findings, 'system client-umask scenario')
             res = sysmon.st.run_extra_files(sysmon.sysroot(ctx, 'c01'), 'c01x' + os.path.basename(cc), cc)
             if res['requests']: sysmon.feed(ctx, res, findings, f'system list-file scenarios {os.path.basename(cc)}')
             for dm in (True, False):
